@@ -71,6 +71,87 @@ def run_mutant(mu, repo, pid):
             shutil.rmtree(ftmp, ignore_errors=True)
 
 
+def _fired_on_tree(tmp, pids):
+    """per property: rule instances that fail on the tree in tmp (default configuration)"""
+    path, ftmp, dt = driver.build_facts(tmp, ())
+    try:
+        ctx = props.Ctx(Facts(path), 'variant')
+        res = {}
+        for pid in pids:
+            spec = props.PROPS[pid]
+            fired = []
+            for fam, rules in spec['families']:
+                o, _ = ctx.run_once(fam, props.FAMILIES[fam])
+                for i in o.insts:
+                    if not i.ok and any(i.rule == r or i.rule.startswith(r + '-') or i.rule.startswith(r) for r in rules):
+                        fired.append(i.key)
+                for mrule, what, note in o.missing:
+                    if any(mrule == r or mrule.startswith(r) for r in rules):
+                        fired.append('ANCHOR-MISSING/%s/%s' % (mrule, what))
+            res[pid] = fired
+        return res
+    finally:
+        shutil.rmtree(ftmp, ignore_errors=True)
+
+
+_PATCH_CACHE = {}       # patch path -> {pid: result}; filled for all properties at once under `check all`
+ALL_PIDS = None         # set by `check all --tier thorough`
+
+
+def run_patch(patch, repo, pid):
+    import subprocess
+    if patch in _PATCH_CACHE and pid in _PATCH_CACHE[patch]:
+        return _PATCH_CACHE[patch][pid]
+    pids = ALL_PIDS or [pid]
+    tmp = driver.copy_tree(repo)
+    try:
+        r = subprocess.run('patch -p1 -s < %s' % patch, shell=True, cwd=tmp, capture_output=True, text=True)
+        if r.returncode != 0:
+            out = {q: {'status': 'skipped', 'why': 'patch does not apply to the current tree'} for q in pids}
+        else:
+            try:
+                fired = _fired_on_tree(tmp, pids)
+                out = {q: {'status': 'fired' if fired[q] else 'silent', 'keys': fired[q][:3]} for q in pids}
+            except driver.DriverError as e:
+                out = {q: {'status': 'skipped', 'why': 'variant does not compile on the current tree'} for q in pids}
+        _PATCH_CACHE.setdefault(patch, {}).update(out)
+        return out[pid]
+    finally:
+        shutil.rmtree(tmp, ignore_errors=True)
+
+
+def run_corpus(pid, repo, quiet=False):
+    """thorough tier: the stored seeded changes of this property must be reported by its rules, the
+    stored behaviour-preserving refactors must not be (results are evidence about the checker,
+    never a verdict on /repo)"""
+    base = os.path.join(os.path.dirname(HERE), 'seeded')
+    seeded = sorted(d for d in os.listdir(base) if d.startswith(pid + '-') and
+                    os.path.exists(os.path.join(base, d, 'patch.diff')))
+    refs = sorted(f for f in os.listdir(os.path.join(base, 'refactors')) if f.endswith('.diff'))
+    jobs = [('seeded', d, os.path.join(base, d, 'patch.diff')) for d in seeded] + \
+           [('refactor', f[:-5], os.path.join(base, 'refactors', f)) for f in refs]
+    res = {}
+    with concurrent.futures.ThreadPoolExecutor(max_workers=8) as ex:
+        for (kind, name, _p), r in zip(jobs, ex.map(lambda j: run_patch(j[2], repo, pid), jobs)):
+            res[(kind, name)] = r
+    sd = {n: r for (k, n), r in res.items() if k == 'seeded'}
+    rf = {n: r for (k, n), r in res.items() if k == 'refactor'}
+    out = {
+        'seeded_changes': {'total': len(sd), 'reported': sorted(n for n, r in sd.items() if r['status'] == 'fired'),
+                           'not_reported': sorted(n for n, r in sd.items() if r['status'] == 'silent'),
+                           'skipped': sorted(n for n, r in sd.items() if r['status'] == 'skipped')},
+        'neutral_refactors': {'total': len(rf), 'silent': sum(1 for r in rf.values() if r['status'] == 'silent'),
+                              'alarmed': {n: r.get('keys') for n, r in rf.items() if r['status'] == 'fired'},
+                              'skipped': sorted(n for n, r in rf.items() if r['status'] == 'skipped')},
+    }
+    if not quiet:
+        print('CORPUS %s seeded: %d reported, not reported %s, skipped %d; refactors: %d silent, alarmed %s, skipped %d' % (
+            pid, len(out['seeded_changes']['reported']), out['seeded_changes']['not_reported'],
+            len(out['seeded_changes']['skipped']), out['neutral_refactors']['silent'],
+            sorted(out['neutral_refactors']['alarmed']), len(out['neutral_refactors']['skipped'])))
+    return {'corpus': out}
+
+
 def run(pid, repo, violations, quiet=False, only=None):
     import mutants
     ms = mutants.by_prop(pid)
